@@ -322,6 +322,35 @@ def apply_op(c, op):
                     c.flags.add("rewired_capture" + ("_graphs_attr" if a_.type == ir.AttributeType.GRAPHS else ""))
 
 
+def _capture_is_shadowed(model):
+    """Does some node consume an outer value whose name is defined again on the way down to the consumer?  Such a model has
+    no name-based (proto) form; edit sequences can reach it (shadow a name first, capture the outer value afterwards)."""
+    import onnx_ir as ir
+
+    def names_ids(g):
+        vals = list(g.inputs) + list(g.initializers.values()) + [o for n in g for o in n.outputs]
+        return {v.name for v in vals if v.name}, {id(v) for v in vals}
+
+    def walk(g, stack):
+        stack = stack + [names_ids(g)]
+        for n in g:
+            for v in n.inputs:
+                if v is None or not v.name:
+                    continue
+                i = next((k for k in range(len(stack) - 1, -1, -1) if id(v) in stack[k][1]), None)
+                if i is not None and any(v.name in stack[k][0] for k in range(i + 1, len(stack))):
+                    return True
+            for a in n.attributes.values():
+                if a.is_ref():
+                    continue
+                subs = [a.value] if a.type == ir.AttributeType.GRAPH else list(a.value) if a.type == ir.AttributeType.GRAPHS else []
+                if any(sg is not None and walk(sg, stack) for sg in subs):
+                    return True
+        return False
+
+    return any(walk(g, []) for g in [model.graph] + [f.graph for f in model.functions.values()])
+
+
 def execute(case):
     import onnx_ir as ir
     from vlib import iso, protogen, snapshot, wiring
@@ -343,6 +372,8 @@ def execute(case):
         return dict(failures=[], nontrivial=False, classes=["malformed"])
     except Exception as e:  # an edit raising is not this property's business
         return dict(failures=[], nontrivial=False, classes=[f"setup_raised_{type(e).__name__}"])
+    if case.get("ops") and _capture_is_shadowed(model):
+        return dict(failures=[], nontrivial=False, classes=["captured_value_shadowed_by_the_edits(no proto form, no claim)"])
     fails = []
     if wiring0:
         fails.append(("deserialized-wiring/seed", f"from_proto wired the generated proto wrongly: {wiring0[0]}"[:400]))
